@@ -55,6 +55,9 @@ def m2_loss_shape(ctx, res: Result, fi: FuncInfo, circ_u: FuncInfo, total: FuncI
     if incs:
         p = par.get(incs[0])
         under_loss = isinstance(p, ast.If) and "isinstance(spec, Loss)" in src(p.test) and incs[0] in p.body
+    early = [r for r in walk_no_nested(fi.node) if isinstance(r, (ast.Return, ast.Continue, ast.Raise))]
+    res.add(not early, "M2-every-component-compiled", fi.qualname, fi.site(early[0]) if early else fi.site(), fi.qualname, "no early exit: every Loss grows the unitary and every non-barrier component is multiplied in",
+            f"`{src(early[0])[:60] if early else ''}` lets a component be skipped: U_full no longer has one extra mode per loss element / the component does not enter the product", construct=src(early[0])[:80] if early else "")
     res.add(ok and under_loss, "M2-one-mode-per-loss", fi.qualname, fi.site(incs[0]) if incs else fi.site(), fi.qualname, "loss-mode counter is incremented by exactly one, once, on the Loss branch",
             "loss-mode counter is not incremented by exactly one per Loss element", construct=src(incs[0]) if incs else fi.qualname)
     pads = [c for c in walk_no_nested(fi.node) if isinstance(c, ast.Call) and src(c.func).endswith("pad")]
@@ -161,3 +164,78 @@ def m4_permutation_orientation(ctx, res: Result, fi: FuncInfo) -> None:
     fills = [lp for lp in walk_no_nested(fi.node) if isinstance(lp, ast.For) and "range(n_modes)" in src(lp.iter)]
     good = any("swaps.get(m, m)" in src(lp) or ".get(" in src(lp) for lp in fills)
     res.add(good, "M4-permutation-total", fi.qualname, fi.site(), fi.qualname, "modes absent from the swap dictionary map to themselves", "modes absent from the swap dictionary are not completed with the identity", construct=fi.qualname)
+
+
+def m3_block_unitary(ctx, res: Result, fi: FuncInfo, symbols: dict) -> None:
+    """The entries a component writes form a unitary block for every parameter value (polynomial
+    identity M^dagger M = I over the generators; rules s^2 = 1 - c^2, b^2 = 1 - a^2)."""
+    from ..fold import Angle, Folder, NotFoldable
+    from ..poly import Poly, mdag, meq, meye, mmul
+
+    c, s_ = Poly.gen("c"), Poly.gen("s")
+    Poly.rules = {"s": Poly.const(1) - c * c, "b": Poly.const(1) - Poly.gen("a") * Poly.gen("a")}
+    pairs = _index_pairs(fi.node)
+    if not pairs:
+        raise AnalysisError(f"{fi.qualname}: no unitary[r, c] stores found")
+    branches: dict = {}
+    for br, r, cc, a in pairs:
+        branches.setdefault(br, []).append((r, cc, a))
+    for br, lst in branches.items():
+        idx = []
+        for r, cc, _a in lst:
+            for x in (r, cc):
+                if x not in idx:
+                    idx.append(x)
+        fd = Folder(angle_names=tuple(k for k, v in symbols.items() if v == "angle" and "." not in k and " " not in k))
+        for k, v in symbols.items():
+            if v == "angle":
+                fd.env[k] = Angle(2)  # the generators are cos/sin of the *whole* angle: theta = 2 * (theta/2)
+        M = [[Poly.const(1 if i == j else 0) for j in range(len(idx))] for i in range(len(idx))]
+        try:
+            for r, cc, a in lst:
+                val = _fold_with_symbols(fd, a.value, symbols)
+                M[idx.index(r)][idx.index(cc)] = val
+        except NotFoldable as e:
+            raise AnalysisError(f"{fi.qualname}: matrix entry not foldable: {e}") from e
+        ok = meq(mmul(mdag(M), M), meye(len(idx)))
+        inst = f"{fi.qualname}:{br or 'body'}"
+        res.add(ok, "M3-block-unitary", inst, fi.site(lst[0][2]), fi.qualname, "the written block is unitary for every parameter value",
+                "the block this component writes is not unitary (M^dagger M != I as a polynomial identity): U_full of a circuit containing it is not unitary", construct=";".join(f"[{r},{cc}]={src(a.value)}" for r, cc, a in lst)[:300])
+
+
+def _fold_with_symbols(fd, e, symbols):
+    from ..fold import NotFoldable
+    from ..poly import Poly
+
+    s = src(e)
+    for k, v in symbols.items():
+        if v != "angle" and s.replace(" ", "") == k.replace(" ", ""):
+            return Poly.gen(v)
+    if isinstance(e, ast.Attribute) and src(e) in fd.env:
+        return fd.env[src(e)]
+    if isinstance(e, ast.BinOp):
+        a, b = _fold_with_symbols(fd, e.left, symbols), _fold_with_symbols(fd, e.right, symbols)
+        from ..fold import Angle
+
+        if isinstance(a, Angle) or isinstance(b, Angle):
+            return fd._angle_op(a, b, e.op, e)
+        if isinstance(e.op, ast.Mult):
+            return a * b
+        if isinstance(e.op, ast.Add):
+            return a + b
+        if isinstance(e.op, ast.Sub):
+            return a - b
+        if isinstance(e.op, ast.Div):
+            return a / b
+        if isinstance(e.op, ast.Pow):
+            return a ** b
+        raise NotFoldable(src(e))
+    if isinstance(e, ast.UnaryOp) and isinstance(e.op, ast.USub):
+        return -_fold_with_symbols(fd, e.operand, symbols)
+    if isinstance(e, ast.Call) and src(e.func).split(".")[-1] in ("cos", "sin", "exp") and e.args:
+        arg = _fold_with_symbols(fd, e.args[0], symbols)
+        from ..fold import Angle
+
+        if isinstance(arg, Angle):
+            return fd._trig(src(e.func).split(".")[-1], arg, e)
+    return fd.fold(e)
